@@ -32,7 +32,7 @@ ASSUMPTIONS = [
     'dup(first,last); all classes of vacancy/solute/solute-vacancy/omega0/omega2 and the first 3 omega1 classes by tag order)',
 ]
 
-INTERSTITIAL = ['FCC_O', 'FCC_T', 'FCC_OT', 'BCC_O', 'BCC_T', 'HCP_OT', 'HONEY', 'ROMEGA', 'RUMPLED2', 'WURTZ2', 'P1', 'P1_3', 'PMMM_G', 'P2MM_G', 'OBL3',
+INTERSTITIAL = ['FCC_O', 'FCC_T', 'FCC_OT', 'BCC_O', 'BCC_T', 'HCP_OT', 'HONEY', 'ROMEGA', 'RUMPLED2', 'WURTZ2', 'P1', 'P1_3', 'PMMM_G', 'P2MM_G', 'OBL3', 'TET4I',
                 'RECTM', 'HEXM', 'KAGOME', 'POLAR4', 'PM2D', 'PYROPE', 'SC', 'FCC', 'BCC', 'HCP', 'DIAMOND', 'OMEGA',
                 'B2', 'L12', 'NBO', 'SQUARE', 'TRIA', 'OBLIQUE', 'SQ2MM', 'TRIC', 'MONO']
 VM_QUICK = [('FCC', 1), ('BCC', 1), ('HCP', 1), ('SC', 1), ('DIAMOND', 1), ('SQUARE', 1), ('TRIA', 1), ('HONEY', 1),
